@@ -34,7 +34,7 @@ LEVEL_NOTE = ('trusted base: released mpmath 1.3.0 + the tree itself at 3p+300 b
 TECHNIQUE = 'runtime reference-model monitor: consensus oracle on every observed function value; sign-change/index oracle for zeros'
 SHARD_TIMEOUT = {'quick': 600, 'thorough': 3000}
 CASES = {'quick': 260, 'thorough': 6000}
-BUDGET = {'quick': 50, 'thorough': 780}
+BUDGET = {'quick': 50, 'thorough': 420}
 NSHARDS = 16
 
 HV = dict(heavy=True)
